@@ -127,6 +127,23 @@ theorem tdm_filler_count (d t N : Nat) :
       = (due t N).length - (tdmDue d t N).length := by
   rw [tdm_stream, tdmRun_capacity, ← cap_eq_due_length]; rfl
 
+/-- **resume**: `_open_resume` sets the cursor to `pre t o = o / t + 1` (`ResumeIdx.iTdm`).  In the exact regime that is the number of rows on file at
+    the checkpoint step `o`, so a resumed run continues where the interrupted one stopped … -/
+theorem tdm_resume_cursor_exact (d t o : Nat) (h : ∀ s, s ≤ o → isDue t s = true → isDue d s = true) :
+    (tdmDue d t o).length = pre t o := by
+  have : tdmDue d t o = due t o := by
+    unfold tdmDue due
+    apply List.filter_congr
+    intro s hs
+    rw [List.mem_range] at hs
+    cases hts : isDue t s
+    · simp
+    · simp [h s (by omega) hts]
+  rw [this, due_length_pre]
+
+/-- … while in the lcm regime the cursor jumps past never-written rows: data every 2, TDM every 3, checkpoint at step 8: two rows on file, cursor 3 -/
+example : (tdmDue 2 3 8).length = 2 ∧ pre 3 8 = 3 := by decide
+
 /-- the model's test is the AST translation of `do_tdm` in the live `append_data` -/
 theorem gateTdm_is_isDue (s e : Nat) : Generated.Gates.gateTdm (s : Int) (e : Int) = isDue e s := by
   have := GatesTie.gateVec_is_isDue s e
